@@ -4,7 +4,7 @@ From V Require Import Common.Base C01.Utf C01.Quote C01.SpecLiteral C01.QuotePro
 From V Require Import C01.Num C01.SpecNumeric C01.NumProofs C01.NumProofs2 C01.NumFlag C01.ScriptProofs.
 From V Require Import C13.Token C13.ParseSpec C01.CommaTrace.
 From V Require Import gen.IdTablesGen C01.Keys C01.KeysProofs.
-From V Require Import C01.Template C01.TemplateProofs C01.Tagged C01.TaggedProofs.
+From V Require Import C01.Template C01.TemplateProofs C01.Tagged C01.TaggedProofs C01.Directive.
 
 (* printQuotedUTF16: for EVERY sequence of UTF-16 code units (lone surrogates
    included), every configuration (charset, unicode-escape support,
@@ -274,3 +274,25 @@ Theorem tagged_template_bytes : forall head tails,
   \/ In SUBST head \/ Exists (In SUBST) tails.
 Proof. exact print_tagged_render. Qed.
 Print Assumptions tagged_template_bytes.
+
+(* ---- directive prologue ---- *)
+
+(* The statement that SHOULD hold: transforming a body does not change whether
+   it is strict,
+       forall cfg src, strict_preserved cfg src
+   i.e. prologue_strict (roundtrip cfg src) = prologue_strict src, where
+   roundtrip is the end-to-end model of js_parser + js_printer on the
+   statements that matter (C01/Directive.v, tied to api.Transform + node by the
+   `directive` correspondence family) and prologue_strict is ECMA-262 11.2.1.
+   It is FALSE of the faithful model; the four witnesses are the recorded known
+   findings, replayed on the real code by the fixed corpus on every run:
+     wit_A   'use\x20strict'; ...          (escaped text is not a Use Strict Directive; printed unescaped)
+     wit_A2  'use\u0020strict'; ...
+     wit_B   ('use strict'); ...           (parenthesised string statement printed without parentheses)
+     wit_C   'a' + 'b'; 'use strict'; ...  (dropped statement promotes the string into the prologue)
+   In all four the source body is sloppy and the printed body is strict. *)
+Theorem strict_preserved_refuted :
+  ~ strict_preserved cfg_default wit_A /\ ~ strict_preserved cfg_default wit_A2 /\
+  ~ strict_preserved cfg_default wit_B /\ ~ strict_preserved cfg_default wit_C.
+Proof. exact strict_preserved_refuted_witnesses. Qed.
+Print Assumptions strict_preserved_refuted.
